@@ -680,10 +680,19 @@ pub fn gen_c07(seed: u64, thorough: bool) -> Case {
             case.push(GK::AwaitBest);
         }
         case.push(GK::PosCur);
-        if rng.chance(1, 2) {
-            case.raw("go infinite");
-        } else {
-            case.raw(format!("go depth {}", depth + 2));
+        match rng.below(4) {
+            0 | 1 => case.raw("go infinite"),
+            2 => case.raw(format!("go depth {}", depth + 2)),
+            _ => {
+                // a timed search stopped long before its budget is used up
+                let polls = rng.log_uniform(5_000, 2_000_000);
+                if rng.chance(1, 2) {
+                    case.raw(format!("go movetime {}", movetime_for(&case, polls)));
+                } else {
+                    let want = movetime_for(&case, polls);
+                    case.push(GK::GoClock { own: want * 50 + 8_000, own_inc: 0, opp: rng.log_uniform(1, 600_000), opp_inc: 0 });
+                }
+            }
         }
         let k = if rng.chance(1, 3) { rng.below(4) } else { rng.log_uniform(1, 2_000) };
         case.push(GK::AfterPolls(k));
